@@ -122,7 +122,22 @@ class Gen:
             if v.divisor:
                 v.values = [r.choice([1, 2, 4, -1, -2, 1]) for _ in range(n)]
             else:
-                v.values = [r.range(-4, 4) for _ in range(n)]
+                # value class of the variable: mixed signs, one sign only (folds whose function has no
+                # neutral element 0), constant (ties), zero
+                cls = r.choice(["mixed"] * 6 + ["neg", "neg", "pos", "pos", "const", "zero"])
+                if cls == "neg":
+                    v.values = [-r.range(1, 4) for _ in range(n)]
+                elif cls == "pos":
+                    v.values = [r.range(1, 4) for _ in range(n)]
+                elif cls == "const":
+                    c = r.choice([-3, -1, 2, 4])
+                    v.values = [c] * n
+                elif cls == "zero":
+                    v.values = [0] * n
+                else:
+                    v.values = [r.range(-4, 4) for _ in range(n)]
+                if self.ctx is not None:
+                    self.ctx.hist("variable_value_class", cls)
             if v.kind == "v":
                 ops.append("vec " + " ".join(map(str, [n] + v.values)))
             else:
@@ -602,14 +617,16 @@ class Gen:
             m = self.gen_m(k, n, d)
             return self.mk_vm(self.gen_v(k, d), m)
         k = self.dim()
-        if x < 94:
-            return self.mk_sumrows(self.gen_m(n, k, d))
-        if x < 97:
-            return self.mk_sumcols(self.gen_m(k, n, d))
-        k = max(k, 1)
-        if x < 99:
-            return self.mk_foldrows("maxrows", self.gen_m(n, k, d))
-        return self.mk_foldrows("mincols", self.gen_m(k, n, d))
+        if x < 92 and n > 0 and r.chance(1, 2):
+            # triangular product (trmv)
+            a = self.place_m(n, n)
+            if a is not None:
+                return self.mk_trimv(r.choice(list(self.TRI)), a, self.gen_v(n, d))
+        # row-wise reductions: all six, over rows and over columns
+        red, rows = r.choice(self.FOLD_REDS), r.chance(1, 2)
+        if red in ("max", "min", "norm_inf"):
+            k = max(k, 1)
+        return self.mk_fold(red, rows, self.gen_m(n, k, d) if rows else self.gen_m(k, n, d))
 
     def un(self, kind, f, a):
         pre = "" if kind == "V" else "m"
@@ -692,6 +709,10 @@ class Gen:
             return self.mk_outer(self.gen_v(n1, d), self.gen_v(n2, d))
         if x < 70:
             k = self.dim()
+            if x >= 67 and n1 > 0:
+                a = self.place_m(n1, n1)       # triangular product (trmm)
+                if a is not None:
+                    return self.mk_trimm(r.choice(list(self.TRI)), a, self.gen_m(n1, n2, d))
             return self.mk_mm(self.gen_m(n1, k, d), self.gen_m(k, n2, d))
         if x < 76:
             return self.mk_repeat(self.gen_v(n2, d), n1)
@@ -839,6 +860,10 @@ class Gen:
                 return None
         if r.chance(1, 12):
             return self.scalar_statement(k)
+        if r.chance(1, 9):
+            st = self.alias_statement(k)
+            if st is not None:
+                return st
         t = self.target()
         base = [v for v in self.vars if v.name in t.reads][0]
         form = r.choice(self.FORMS + ["set", "plus"])
@@ -881,6 +906,53 @@ class Gen:
         fname = ("na_" if noalias else "") + form
         return self.render_statement(k, fname, t, e)
 
+    def same_storage_place(self, base, shape):
+        """another dense proxy of the given shape over the variable `base` (or None)"""
+        saved = self.vars
+        self.vars = [base]
+        try:
+            return self.place_v(shape) if not isinstance(shape, tuple) else self.place_m(shape[0], shape[1])
+        finally:
+            self.vars = saved
+
+    def alias_statement(self, k):
+        """target and right-hand side are two (usually different) proxies of ONE variable: overlapping
+        windows, crossing lines, transposes; bare or wrapped in an element-wise expression"""
+        r = self.r
+        t = self.target()
+        base = [v for v in self.vars if v.name in t.reads][0]
+        try:
+            p = self.same_storage_place(base, t.shape)
+            if p is None:
+                return None
+            kind = t.kind
+            how = r.below(6)
+            if how <= 2:
+                e = p
+            elif how == 3:
+                e = self.mk_smul(r.choice([2, -1, 3]), p)
+            elif how == 4:
+                q = self.same_storage_place(base, t.shape) or p
+                e = self.mk_sub(p, q) if r.chance(1, 2) else self.bin(kind, r.choice(["max", "min"]), p, q)
+            else:
+                e = self.un(kind, r.choice(["abs", "neg"]), p)
+        except Unsupported:
+            return None
+        form = r.choice(["set", "set", "plus", "minus", "times"])
+        tb, td = base.bound, base.dexp
+        if form == "set":
+            nb, nd = max(tb << max(0, e.dexp - td), e.bound << max(0, td - e.dexp)), max(td, e.dexp)
+        elif form in ("plus", "minus"):
+            nb, nd = (tb << max(0, e.dexp - td)) + (e.bound << max(0, td - e.dexp)), max(td, e.dexp)
+        else:
+            nb, nd = tb * e.bound, td + e.dexp
+        if max(1, nb).bit_length() + nd > MAXBITS or e.bits() > MAXBITS:
+            return None
+        base.bound, base.dexp = nb, nd
+        if self.ctx is not None:
+            self.ctx.count("alias_pair_statements")
+        return self.render_statement(k, form, t, e)
+
     def scalar_statement(self, k):
         """x *= t / x /= t with a scalar t (kernels::assign<multiply|divide>(x, t), no temporary)"""
         r = self.r
@@ -914,7 +986,7 @@ class Gen:
         return f"stmt {k} {text}", src, info
 
     REDS_V = ["sum", "max", "min", "norm_1", "norm_sqr", "norm_inf", "inner_prod"]
-    REDS_M = ["msum", "mmax", "mmin", "trace"]
+    REDS_M = ["msum", "mmax", "mmin", "trace", "mnorm_1", "mnorm_inf", "frobenius_prod"]
 
     def reduction(self, k):
         r = self.r
@@ -934,9 +1006,11 @@ class Gen:
             n1, n2 = self.dim(), self.dim()
             if kind == "trace":
                 n2 = n1
-            if kind in ("mmax", "mmin") and n1 * n2 == 0:
+            if kind in ("mmax", "mmin", "mnorm_1", "mnorm_inf") and n1 * n2 == 0:
                 kind = "msum"
             args = [self.gen_m(n1, n2, depth)]
+            if kind == "frobenius_prod":
+                args.append(self.gen_m(n1, n2, depth))
             if kind == "trace":
                 try:
                     self.K("diag", args[0].cls)
